@@ -17,6 +17,7 @@ from spacepackets.cfdp.defs import UnsupportedCfdpVersion
 from spacepackets.uslp.header import PrimaryHeader, TruncatedPrimaryHeader
 
 PROPERTY = "C09"
+PATH_TIMEOUT = 180     # the longest paths take ~15 s alone; leave room for a loaded machine
 OUTSIDE = ["suffixes longer than listed", "arbitrary-buffer form for the CRC-protected PUS packets (there the packed+suffix form "
            "is used; C02/C03 decide 'accepted => fields are those of the first declared octets' on arbitrary buffers)",
            "PDU variants other than those listed"]
@@ -265,9 +266,10 @@ def cases(tier):
                            bounds="%s decoder on every octet string of length %d without the CRC flag" % (kind, L)))
     pk = tier_pick(tier, (2, 3, 8), (1, 2, 3, 4, 8, 16))
     cfgs = tier_pick(tier, [(1, 1, 0, 0), (1, 1, 1, 0), (2, 4, 1, 1)], config_matrix("quick"))
-    pv = dict(eof=[("nofl", {}), ("fl1", dict(fl=1))], finished=[("r0", dict(nresp=0)), ("r1-fl", dict(nresp=1, fl=1))], ack=[("eof", dict(acked=4))],
-              metadata=[("names11", {}), ("opts1", dict(nopts=1, optlen=1)), ("nonames", dict(src=None, dst=None))],
-              nak=[("s0", dict(nseg=0)), ("s1", dict(nseg=1))], prompt=[("p", {})], keepalive=[("p", {})],
+    pv = dict(eof=[("nofl", {}), ("fl1", dict(fl=1))], finished=[("r0", dict(nresp=0)), ("r1-fl", dict(nresp=1, fl=1)), ("r2", dict(nresp=2))], ack=[("eof", dict(acked=4))],
+              metadata=[("names11", {}), ("opts1", dict(nopts=1, optlen=1)), ("nonames", dict(src=None, dst=None)), ("opts2", dict(nopts=2)),
+                        ("opts2-last-empty", dict(nopts=2, optlens=(2, 0)))],
+              nak=[("s0", dict(nseg=0)), ("s1", dict(nseg=1)), ("s2", dict(nseg=2))], prompt=[("p", {})], keepalive=[("p", {})],
               filedata=[("d0", dict(ndata=0)), ("d2", dict(ndata=2)), ("d1-m1", dict(ndata=1, nmeta=1))])
     for kind, vs in pv.items():
         for vn, var in vs:
